@@ -1,5 +1,5 @@
 CONSTANTS
-  Decodable = {"sha256","x509"}
+  Decodable = {"sha256","x509","extern"}
 INIT Init
 NEXT Next
 INVARIANT Inv
